@@ -15,8 +15,10 @@ def run(chk):
         for arm in m['arms']:
             if any(p.endswith('Component::ParentDir') for p in T.pat_variants(arm['pat'])):
                 arms.append(arm)
-    if not chk.need(len(arms) == 1, 'cheap_canonicalize_path: expected exactly one Component::ParentDir arm, found %d' % len(arms)):
+    if not chk.need(len(arms) >= 1, 'cheap_canonicalize_path: no Component::ParentDir arm found'):
         return 'anchor lost', {}
+    if len(arms) > 1:
+        return counter_form(chk, fx, fn, arms)
     arm = arms[0]
     pushes = [c for c in T.calls(arm['b']) if c.get('k') == 'MCall' and c['n'] == 'push' and (T.cq(c) or '') == 'PathBuf::push']
     pops = [c for c in T.calls(arm['b']) if c.get('k') == 'MCall' and c['n'] == 'pop' and (T.cq(c) or '') == 'PathBuf::pop']
@@ -67,6 +69,70 @@ def run(chk):
         chk.lost.append('NormalizedPathBuf::new no longer calls cheap_canonicalize_path')
     return ('Structural rule on the ParentDir arm of erg_common::cheap_canonicalize_path. Decides the clause "never discards leading parent-directory components" '
             'as a necessary condition (some path must push `..`); idempotence is not decided.'), {}
+
+
+def counter_form(chk, fx, fn, arms):
+    """several guarded ParentDir arms: the guards speak about a counter of accumulated normal components (coupled-state rule)"""
+    chk.rule('C31-pop', 'a pop in a ParentDir arm is guarded by `counter > 0` where the counter is the number of accumulated Component::Normal entries: it starts at 0, is incremented '
+                        'exactly where a normal component is pushed and decremented exactly where one is popped')
+    def pushes_of(b):
+        return [c for c in T.calls(b) if c.get('k') == 'MCall' and c['n'] == 'push' and (T.cq(c) or '') == 'PathBuf::push']
+
+    def pops_of(b):
+        return [c for c in T.calls(b) if c.get('k') == 'MCall' and c['n'] == 'pop' and (T.cq(c) or '') == 'PathBuf::pop']
+    if any(pushes_of(a['b']) for a in arms):
+        chk.ok('C31-parent', 'ParentDir', sample='a ParentDir arm pushes the component')
+    else:
+        chk.bad('C31-parent', 'cheap_canonicalize_path', 'ParentDir', 'no Component::ParentDir arm pushes the parent component: `../a` normalises to `a`', FILE, arms[0]['l'])
+    pop_arms = [a for a in arms if pops_of(a['b'])]
+    counters = set()
+    for a in pop_arms:
+        g = a.get('g')
+        c = T.peel(g) if g else {}
+        if c.get('k') == 'Binary' and c.get('op') in ('>', '!=', '>=') and T.peel(c['x']).get('k') == 'Local' and T.lit_int(T.peel(c['y'])) in (0, 1):
+            counters.add(T.peel(c['x'])['n'])
+        else:
+            chk.lost.append('cheap_canonicalize_path: a popping ParentDir arm is guarded in an unrecognised way (%s)' % (T.show(g)[:60] if g else 'no guard'))
+            return 'anchor lost', {}
+    if not chk.need(len(counters) == 1, 'cheap_canonicalize_path: popping arms are guarded by %s' % sorted(counters)):
+        return 'anchor lost', {}
+    cnt = counters.pop()
+    # all arms of the component match
+    m = [n for n in T.walk(fn['body']) if n.get('k') == 'Match' and n.get('src') == 'Normal' and any(any(p.endswith('Component::ParentDir') for p in T.pat_variants(a['pat'])) for a in n['arms'])][0]
+    init = [n for n in T.walk(fn['body']) if n.get('k') == 'Let' and n['pat'].get('n') == cnt]
+    if not (len(init) == 1 and T.lit_int(T.peel(init[0]['init'])) == 0):
+        chk.bad('C31-pop', 'cheap_canonicalize_path', 'counter-init', 'the component counter `%s` does not start at 0' % cnt, FILE, fn['line'])
+    for a in m['arms']:
+        vs = [v.split('::')[-1] for v in T.pat_variants(a['pat'])]
+        inc = [n for n in T.walk(a['b']) if n.get('k') == 'AssignOp' and T.peel(n['x']).get('n') == cnt and n.get('op') == '+=' and T.lit_int(T.peel(n['y'])) == 1]
+        dec = [n for n in T.walk(a['b']) if n.get('k') == 'AssignOp' and T.peel(n['x']).get('n') == cnt and n.get('op') == '-=' and T.lit_int(T.peel(n['y'])) == 1]
+        other = [n for n in T.walk(a['b']) if n.get('k') in ('Assign', 'AssignOp') and T.peel(n['x']).get('n') == cnt and n not in inc and n not in dec]
+        np_, npop = len(pushes_of(a['b'])), len(pops_of(a['b']))
+        inst = '|'.join(vs) + (':guarded' if a.get('g') else '')
+        if other:
+            chk.bad('C31-pop', 'cheap_canonicalize_path', 'counter-write:' + inst, 'the counter `%s` is written in an unrecognised way in the %s arm' % (cnt, inst), FILE, a['l'])
+        elif 'Normal' in vs:
+            if np_ == len(inc) == 1 and not dec:
+                chk.ok('C31-pop', ('inc', inst))
+            else:
+                chk.bad('C31-pop', 'cheap_canonicalize_path', 'counter-inc', 'the Normal arm pushes %d component(s) but increments `%s` %d time(s)' % (np_, cnt, len(inc)), FILE, a['l'])
+        elif npop:
+            if len(dec) == npop and not inc:
+                chk.ok('C31-pop', ('dec', inst))
+            else:
+                chk.bad('C31-pop', 'cheap_canonicalize_path', 'counter-dec', 'the %s arm pops a component but does not decrement `%s`: after `a/..` the counter still says a normal component '
+                        'is there, so the next `..` pops a kept `..` or an empty path (`a/../..` normalises to the empty path)' % (inst, cnt), FILE, a['l'])
+        else:
+            if inc or dec:
+                chk.bad('C31-pop', 'cheap_canonicalize_path', 'counter-drift:' + inst, 'the %s arm changes `%s` without pushing or popping a normal component' % (inst, cnt), FILE, a['l'])
+            else:
+                chk.ok('C31-pop', ('unchanged', inst))
+    new = fx.fn('crates/erg_common/pathutil.rs', 'NormalizedPathBuf::new')
+    if any((T.cq(c) or '').endswith('cheap_canonicalize_path') for c in T.calls(new['body'])):
+        chk.ok('C31-owner', 'NormalizedPathBuf::new', sample='NormalizedPathBuf::new calls cheap_canonicalize_path')
+    else:
+        chk.lost.append('NormalizedPathBuf::new no longer calls cheap_canonicalize_path')
+    return ('Coupled-state rule on the component counter of erg_common::cheap_canonicalize_path (guarded-arm form).'), {}
 
 
 def m_src(n):
